@@ -1,6 +1,6 @@
 """C10 - meaningless requests stop with a diagnostic; meaningful ones never do (guard discipline)."""
 import sympy as sp
-from ..ir import AnalysisBroken, Undecided, show, strip, strip_casts, walk_stmts, stmt_exprs, walk_expr
+from ..ir import AnalysisBroken, Undecided, show, strip, strip_casts, walk_stmts, stmt_exprs, walk_expr, all_exprs
 from .. import guards as G
 from ..guardtable import INSTANCES, CLASSIFIED, L
 from ..symx import Symx
@@ -429,6 +429,29 @@ def short_containers(prog, ctx, wrappers):
                                 guarded = True
                     found.append((n, base['name'], r_here, r_bound, guarded))
         rec(fn.body, [], [])
+        # a literal column read p[r][k] needs a test of the width of the rows of p (any row-length test of p that leads to the
+        # error exit or to a validity flag, placed before the read)
+        import re as _re2
+        row_tests = []
+        for s_ in walk_stmts(fn.body):
+            if s_['k'] == 'If' and (s_.get('l') or 0) > 0:
+                for pn_ in pn:
+                    if _re2.search(_re2.escape(pn_) + r'\[[^\]]+\]\.(size|empty)\(\)', show(s_['cond']).replace(' ', '')):
+                        row_tests.append((pn_, s_.get('l')))
+        seen_cols = set()
+        for e_ in all_exprs(fn):
+            if e_.get('k') == 'Index' and strip_casts(e_['idx']).get('k') == 'Lit' and strip(e_['base']).get('k') == 'Index':
+                b_ = strip(strip(e_['base'])['base'])
+                if b_.get('k') == 'Ref' and b_.get('rk') == 'param' and b_.get('name') in pn:
+                    kcol = strip_casts(e_['idx'])['v']
+                    inst_ = '%s:%s[.][%s]' % (fn.q.replace(L, '') + '/%d' % len(fn.params), b_['name'], kcol)
+                    if inst_ in seen_cols:
+                        continue
+                    seen_cols.add(inst_)
+                    ok_ = any(p_ == b_['name'] and l_ <= (e_.get('l') or 0) for p_, l_ in row_tests)
+                    ctx.decide(R, inst_, fn, ok_, 'column %s of the rows of `%s` is read after a test of the row lengths' % (kcol, b_['name']),
+                               '%s is read although nothing tests the length of the rows of `%s`: a ragged or transposed table is read out of bounds' % (show(e_)[:40], b_['name']),
+                               witness={'reproducer': 'Integrate_Gauss_Legendre({1.0, 1.0}, {{0.2,0.5},{}}) reads element 1 of an empty row'} if not ok_ else None, line=e_.get('l'))
         for n, bn, r_here, r_bound, guarded in found:
             ctx.decide(R, '%s:%s[%s][.]' % (fn.q.replace(L, '') + '/%d' % len(fn.params), bn, r_here), fn, guarded,
                        'the read of row %s is preceded by a test of that row\'s own length' % r_here,
